@@ -263,6 +263,10 @@ func (c *channel) sendSession(ctx context.Context, ses *Session) error {
 		return fmt.Errorf("send session: cannot do in the %v state", state)
 	}
 
+	// Session envelopes share the connection with the data envelopes
+	c.sendMu.Lock()
+	defer c.sendMu.Unlock()
+
 	err := c.transport.Send(ctx, ses)
 	if err != nil {
 		return fmt.Errorf("send session: transport error: %w", err)
